@@ -802,8 +802,6 @@ def gen_C14(rng, tier):
                 w.append('stat')
             if rng.random() < 0.3:
                 r.append('stat')
-            if rng.random() < 0.1:
-                w.append('wf')
         tail = []
         if wrap == 'count' and rng.random() < 0.5:
             tail = ['reopen', rng.choice(['ct', 'cf', 'gc']) + ' %d' % rng.randrange(0, 100), 'stat', 'rp %d' % rng.randrange(1, cap + 1), 'rsp 1', 'stat']
